@@ -46,7 +46,12 @@ pub trait One: Sized + Mul<Self, Output = Self> {
 
 pub trait Number: PartialEq + Sized + Operations + AssignOperations + Zero + One
 {
-
+    /// A power of two s for which the larger of |c| s and |d| s is of order one
+    /// ( one for types without a binary exponent; used to keep c^2 + d^2 in range )
+    #[inline]
+    fn binary_scale( _c: &Self, _d: &Self ) -> Self {
+        Self::one()
+    }
 }
 
 pub trait Signed: Number + Neg<Output = Self> {
@@ -91,4 +96,21 @@ macro_rules! impl_trait {
     )*)
 }
 
-impl_trait!( Number for usize u8 u16 u32 u64 isize i8 i16 i32 i64 f32 f64);
+impl_trait!( Number for usize u8 u16 u32 u64 isize i8 i16 i32 i64);
+
+macro_rules! impl_number_float {
+    ($($t:ty, $bits:ty, $mant: expr, $emax: expr);*) => ($(
+        impl Number for $t {
+            #[inline]
+            fn binary_scale( c: &$t, d: &$t ) -> $t {
+                let m = if c.abs() > d.abs() { c.abs() } else { d.abs() };
+                if !( m > 0.0 ) || !m.is_finite() { return 1.0; }
+                let e = ( m.to_bits() >> $mant ) & $emax;          // biased exponent
+                let e = if e > $emax - 2 { $emax - 2 } else { e };
+                <$t>::from_bits( ( ( $emax - 1 ) as $bits - e ) << $mant )
+            }
+        }
+    )*)
+}
+
+impl_number_float!( f32, u32, 23, 0xff; f64, u64, 52, 0x7ff );
